@@ -20,7 +20,7 @@ import jsonrpclib.jsonrpc as J
 from mc import env
 from mc.core import Out, drive
 
-NON200 = {"E4XX_LEN": 404, "E5XX_LEN": 500, "E5XX_NOLEN": 500, "BODILESS": 204}
+NON200 = {"E4XX_LEN": 404, "E5XX_LEN": 500, "E5XX_NOLEN": 500, "BODILESS": 204, "E4XX_BIN": 404, "E500_JSONCT": 500, "E204_LEN": 204, "E4XX_BIGUTF8": 403}
 URLS = {"tcp": "http://peer.test:8080/rpc?x=1", "unix": "unix+http://./sock"}
 
 
@@ -158,6 +158,19 @@ def fault_cases(tier, transport):
     if tier == "thorough" and transport == "tcp":
         for seq in itertools.product(env.ALPHABET, repeat=5):
             yield (seq, transport, "call")
+    # the further behaviours: alone, in every pair with a behaviour of the base alphabet (both orders), and in triples with two healthy/plain faults
+    full = list(env.ALPHABET) + list(env.EXTENDED)
+    for x in env.EXTENDED:
+        for kind in ("call", "notify", "batch"):
+            yield ((x,), transport, kind)
+            for y in full:
+                yield ((x, y), transport, kind)
+                if y not in env.EXTENDED:
+                    yield ((y, x), transport, kind)
+        for y, z in itertools.product(("OK_KA", "OK_CLOSE", "CLOSE0", "E4XX_LEN", "TRUNC"), repeat=2):
+            for kind in ("call", "batch"):
+                yield ((y, x, z), transport, kind)
+                yield ((y, z, x), transport, kind)
     # long histories (the proxy after many faults / many healthy exchanges behaves like a fresh one)
     n = 150 if tier == "thorough" else 40
     for f in env.ALPHABET:
@@ -503,7 +516,8 @@ META = {
     "scripted peer; per-call token oracle; conformance leg over kernel TCP/Unix sockets",
     "rule": "every sequence of 1..3 (thorough 1..4) behaviours over {OK_KA, OK_CLOSE, REFUSE, CLOSE0, RESET, E4XX_LEN, E5XX_LEN, E5XX_NOLEN, BODILESS, TRUNC, "
     "EMPTY200, GARBAGE200, TRUNC_BIG, RESET_MID}, consumed one per connection attempt or per request read, followed by three healthy exchanges, x {Transport over TCP, UnixTransport} "
-    "x {call, notification, batch of call+notification+call}; long histories: each behaviour repeated 40 (thorough 150) times, each after 160 (600) healthy "
+    "x {call, notification, batch of call+notification+call}; 5 further behaviours (binary and large multi-byte error bodies, a 500 carrying the JSON-RPC content type and a foreign result, a truncated error body, a 204 "
+    "announcing a length) alone, in every pair with any behaviour and in triples with 5 base behaviours; long histories: each behaviour repeated 40 (thorough 150) times, each after 160 (600) healthy "
     "exchanges, each alternating with healthy exchanges, and 6 cycles through the alphabet; states = distinct (cached connection state, unread bytes, script position) after a call, "
     "transitions = client calls; kernel leg: sequences of length <=2 over real loopback TCP and Unix sockets, outcome classes compared with the model; "
     "non-trivial = every sequence (each contains at least one scripted behaviour)",
